@@ -182,7 +182,8 @@ def cmp_matrix(ma, mb):
     return None
 
 
-EDGE_CLASS = {"odometry": "odometry", "numeric_odometry": "odometry", "landmark": "landmark", "numeric_landmark": "landmark"}
+EDGE_CLASS = {"odometry": "odometry", "numeric_odometry": "odometry", "landmark": "landmark", "numeric_landmark": "landmark",
+              "robust_odometry_se2": "robust_odometry_se2"}
 
 
 def cmp_graph_specs(a, b, cycles=1, check_params=True, strict_angles=False):
